@@ -89,6 +89,13 @@ def oracle(case, R):
     fsc = float(case.get("fscale", 1.0))
     if d0 is not None:
         d0, v0 = d0 * fsc, v0 * fsc
+    # "if None, zero ic's are used": None and an explicit zero vector are the same request
+    icf = case.get("icform", "asis")
+    if ic == "zero" and icf in ("zeros_d0", "zeros_both"):
+        d0 = np.zeros(n)
+    if ic == "zero" and icf in ("zeros_v0", "zeros_both"):
+        v0 = np.zeros(n)
+    R.label("icform:" + icf)
     static_ic = ic == "static"
     F0 = np.array(case["f0"], float) * fsc
     R.label("fscale=1" if fsc == 1.0 else ("fscale<1e-8" if fsc < 1e-8 else "fscale:other"))
@@ -322,6 +329,7 @@ def histories(draw, family):
             "get_force": draw(st.booleans()),
             # (the generator interface is documented to need contiguous blocks: the sets stay in ascending order)
             "ppack": draw(st.sampled_from(["list", "list", "array", "int32", "bool"])),
+            "icform": draw(st.sampled_from(["asis", "asis", "zeros_d0", "zeros_v0", "zeros_both"])),
             "fscale": draw(st.sampled_from([1.0, 1.0, 1.0, 1e-10, 2.0 ** -30, 1e-6, 1e8, 2.0 ** 30]))}
 
 
